@@ -573,6 +573,14 @@ def Store.touchRes (s : Store) (g k n : String) (labels : Labels) : Store × Boo
     if labels.foldl setLabel r.labels = r.labels then (s, true)
     else ((s.putR { r with labels := labels.foldl setLabel r.labels, rv := s.nextRv }).bump, true)
 
+/-- Another writer puts the controller's finalizer on a Usage (a Usage templated or restored with
+`metadata.finalizers` already set): the only way a Usage can hold the finalizer - and so survive
+its own deletion request - BEFORE its selectors were ever resolved. -/
+def Store.setFin (s : Store) (n : String) : Store × Bool :=
+  match s.getU n with
+  | none => (s, false)
+  | some x => if x.fin then (s, true) else ((s.putU { x with fin := true, rv := s.nextRv }).bump, true)
+
 inductive Verdict where
   | allowed | denied | errored
   deriving DecidableEq, Repr, Inhabited
@@ -658,6 +666,9 @@ inductive Action where
   | stepW (u : String) (o : Outcome) (c : Call)
   /-- the XR composer re-applies a composed Usage templated in a version `RespectOwnerRefs` does not recognise -/
   | xaRaw (name ctrl : String)
+  /-- another writer puts the finalizer on a Usage (outside the `listFresh` world: a Usage holding the
+  finalizer with unresolved selectors) -/
+  | ef (name : String)
   deriving Repr, Inhabited
 
 /-- what an action reports (compared with the real run by the driver) -/
@@ -704,6 +715,7 @@ def Sys.exec (sys : Sys) : Action → Sys × Report
 
   | .er g k n l => let x := sys.store.touchRes g k n l; ({ sys with store := x.1 }, .touched x.2)
   | .xaRaw n c => let x := sys.store.reapplyRaw n c; ({ sys with store := x.1 }, .reapplied x.2)
+  | .ef n => let x := sys.store.setFin n; ({ sys with store := x.1 }, .touched x.2)
   | .stepW n o c =>
     match sys.thread? n with
     | none => (sys, .ignored)
@@ -730,6 +742,7 @@ def Action.fresh : Action → Bool
   | .step _ _ st => st.isNone
   | .stepW _ _ _ => false
   | .xaRaw _ _ => false
+  | .ef _ => false
   | _ => true
 
 def listFresh (as : List Action) : Prop := ∀ a ∈ as, a.fresh = true
